@@ -179,6 +179,22 @@ def listener_cases(rnd, n):
                     segs.append(s[pos:pos + k])
                     pos += k
                 ops.append("tcpreal %d %s" % (rnd.choice([0, 20]), " ".join(tg.hx(g) for g in segs[:120]) if len(segs) <= 120 else tg.hx(s)))
+        # two connections on one listener, lines of each cut at arbitrary places, segments interleaved
+        for _ in range(2):
+            streams = []
+            for tag in (b"A.", b"B."):
+                sl = b"".join(tag + tg.metric_line(rnd, invalid_p=0.0, ws_p=0.0)[0] + b"\n" for _ in range(rnd.randint(3, 12)))
+                segs, pos = [], 0
+                while pos < len(sl):
+                    k = rnd.choice([1, 3, 7, 20, 60])
+                    segs.append(sl[pos:pos + k])
+                    pos += k
+                streams.append(segs)
+            inter = []
+            for k in range(max(len(streams[0]), len(streams[1]))):
+                for st in streams:
+                    inter.append(tg.hx(st[k]) if k < len(st) else "-")
+            ops.append("tcp2real 0 " + " ".join(inter))
         out.append(("l%d" % i, ops))
     return out
 
@@ -196,6 +212,19 @@ def listener_monitor(lines, out):
                 return out[oi]
             oi += 1
         oi += 1
+        if f[0] == "tcp2real":
+            segs = [b"" if h == "-" else bytes.fromhex(h) for h in f[2:]]
+            for k, tag in ((0, b"A."), (1, b"B.")):
+                want = expected_lines(b"".join(segs[k::2]))
+                got = [t for t in toks if t.startswith(tag)]
+                if got != want:
+                    j = next((i for i, (a, b) in enumerate(zip(got, want)) if a != b), min(len(got), len(want)))
+                    return "two connections on one listener: connection %s had %d lines processed, expected %d; first difference at its line %d: got %r, expected %r" % (
+                        tag.decode(), len(got), len(want), j, got[j][:60] if j < len(got) else None, want[j][:60] if j < len(want) else None)
+            stray = [t for t in toks if not t.startswith((b"A.", b"B."))]
+            if stray:
+                return "two connections on one listener: processed a line that neither connection sent: %r" % stray[0][:80]
+            continue
         if f[0] == "udpreal":
             want = []
             for h in f[2:]:
